@@ -11,6 +11,7 @@ RULE = ('one record per verify(message, public key, signature); verdict must equ
         'distinct = (mutation kind, position/parameter)')
 ASSUMPTIONS = ['RFC 8032 group arithmetic on Python ints (affine and extended formulas cross-checked in the selftest)']
 FLOORS = {'evaluations': 1500, 'distinct': 500, 'coverage': {'accept': 60, 'reject': 1200, 'kind:forgery-small-order-key': 8, 'kind:forgery-zero-key': 2, 'kind:S+kL': 14}}
+THOROUGH_ROUNDS = 60   # thorough tier: generator passes with derived seeds (runner.gen_rounds)
 P, L = o.P, o.L
 
 
